@@ -103,7 +103,15 @@ def inspect_all(e, c, q, qa, items, names, tag, symbolic_memory=True):
     for k in S0:
         acc.append(("%s:state-unchanged:%s" % (tag, k), S1[k], S0[k]))
     claim_all(e, "%s:pure" % tag, acc)
+    shared_tables_untouched(e, tag)
     return S1
+
+
+def shared_tables_untouched(e, tag):
+    from symx import globalsnap
+
+    ch = globalsnap.changed()
+    e.claim("%s:shared-tables-untouched" % tag, not ch, {"changed": ch[:5]})
 
 
 def mk_caches(cfg):
@@ -222,6 +230,7 @@ def h_inspect_small(e, mnems, mode, cfg=None):
             for k_ in M0:
                 acc.append(("s%d:state-unchanged:%s" % (n, k_), M1[k_], M0[k_]))
             claim_all(e, "s%d:pure" % n, acc)
+            shared_tables_untouched(e, "s%d" % n)
     rows = c.sim.get_data_memory_entries()
     e.observe("rows", [r[0][0] for r in rows])
     e.claim("table-lists-written-words", all(any(k // 4 * 4 == r[0][0] for r in rows) for k in lower.memory_file.keys()))
@@ -246,6 +255,7 @@ def h_inspect_toy(e, steps=2):
         S1 = toy_snapshot(e, a, sa, q, False)
         for k in S0:
             e.claim_eq("t%d:state-unchanged:%s" % (n, k), S1[k], S0[k])
+        shared_tables_untouched(e, "t%d" % n)
         if a.is_done():
             break
         a.single_step()
@@ -270,6 +280,7 @@ def h_inspect_toy_table(e, opcode):
         S1 = toy_snapshot(e, a, sa, 0, True)
         for k in S0:
             e.claim_eq("t%d:state-unchanged:%s" % (n, k), S1[k], S0[k])
+        shared_tables_untouched(e, "t%d" % n)
         if a.is_done():
             break
         try:
